@@ -11,5 +11,8 @@ with open(os.path.join(ROOT, ".build", "locks", "findings"), "w") as lk:
     j["findings"] = [f for f in j["findings"] if not (f["property"] == pid and f["key"] == key)]
     j["findings"].append({"property": pid, "key": key, "what": what})
     j["findings"].sort(key=lambda f: (f["property"], f["key"]))
-    json.dump(j, open(p, "w"), indent=1)
+    tmp = p + ".tmp%d" % os.getpid()
+    with open(tmp, "w") as fh:
+        json.dump(j, fh, indent=1)
+    os.replace(tmp, p)   # atomic: readers never see a partial file
 print("recorded", pid, key)
